@@ -40,7 +40,10 @@ Definition enc_res (r : res) : list Z :=
 Definition arrays_of (i : nat) (t : traj) : list (nat * (nat * nat * list nat)) :=
   let o {A} (k : nat) (x : option (arr A)) :=
     match x with None => [] | Some a => [(5 * i + k, (1, a_buf a, a_pos a))%nat] end in
-  [((5 * i)%nat, (0, xb t, xp t)%nat); ((5 * i + 1)%nat, (1, a_buf (tm t), a_pos (tm t))%nat)]
+  (* an xyz array with zero atoms per frame occupies no bytes: numpy reports no shared memory for it,
+     whatever frame positions it nominally holds (remove_solvent / atom_slice down to nothing) *)
+  (if Nat.eqb (na t) 0 then [] else [((5 * i)%nat, (0, xb t, xp t)%nat)])
+  ++ [((5 * i + 1)%nat, (1, a_buf (tm t), a_pos (tm t))%nat)]
   ++ o 2%nat (ul t) ++ o 3%nat (ua t) ++ o 4%nat (tr t).
 
 Definition all_arrays (w : world) : list (nat * (nat * nat * list nat)) :=
